@@ -3659,7 +3659,7 @@ func (lhs *Statement) mod(op opType, rhs *Statement) error {
 	for _, x := range rhs.Conditions {
 		var c Condition
 		i := 0
-		for idx, y := range lhs.Conditions {
+		for idx, y := range cs { // cs, not lhs.Conditions: earlier removals have shifted the indices
 			if x.Type() == y.Type() {
 				c = y
 				i = idx
@@ -3712,7 +3712,7 @@ func (lhs *Statement) mod(op opType, rhs *Statement) error {
 	for _, x := range rhs.ModActions {
 		var a Action
 		i := 0
-		for idx, y := range lhs.ModActions {
+		for idx, y := range as {
 			if x.Type() == y.Type() {
 				a = y
 				i = idx
